@@ -28,7 +28,7 @@ def run(tier="quick"):
     for rid, txt in (("L6", "all order-dependent decisions agree on ascending order"), ("M2", "removal is selected by equality"),
                      ("D1", "chain pointers dereferenced only inside the chain"),
                      ("L2", "unlink updates pred/succ/head/tail independently"), ("L3", "created node linked forwards and backwards"),
-                     ("L5", "len follows every insertion and removal"), ("B1", "array storage bounds and len/items invariant"),
+                     ("L5", "len follows every insertion and removal"), ("L7", "every node of a doubly linked copy is back-linked"), ("B1", "array storage bounds and len/items invariant"),
                      ("U1", "no uninitialised local")):
         chk.rule(rid, txt)
     prog = facts.extract(units=UNITS + ["obj.c", "objpair.c"])
@@ -41,6 +41,7 @@ def run(tier="quick"):
         nd += LR.check_chain_derefs(chk, prog, u, only=names)[1]
     nun = LR.check_unlink_effects(chk, prog, "dlinked_list.c", True, only=names) + LR.check_unlink_effects(chk, prog, "linked_list.c", False, only=names)
     nins = LR.check_insert_effects(chk, prog, "dlinked_list.c", True, only=names) + LR.check_insert_effects(chk, prog, "linked_list.c", False, only=names)
+    nbl = LR.check_dup_backlinks(chk, prog, only={f.name for f in LR.iface_functions(prog, "vector", with_parent=True)})
     nlen = sum(LR.check_len_on_remove(chk, prog, u, only=names) for u in ("linked_list.c", "dlinked_list.c"))
     nf, nund, samples = C02.cap_array(chk, prog, fns)
     C02.init_diag(chk, prog, UNITS, only=names)
